@@ -104,6 +104,10 @@ class Interp:
     def test(self, node, env):
         return None
 
+    def correlate(self, test_node) -> bool:
+        """True if two occurrences of this test on one path must agree (its operands are never reassigned)."""
+        return False
+
     def name(self, ident, env):
         """Unbound name."""
         return alg.sym(ident)
@@ -148,6 +152,8 @@ class Interp:
             a, b = self.ev(node.left, env), self.ev(node.right, env)
             op = alg._BINOPS.get(type(node.op))
             if op is None:
+                if isinstance(node.op, ast.MatMult) and is_ir(a) and is_ir(b):
+                    return alg.app("matmul", a, b)      # opaque, non-commutative product
                 return Opaque(unparse(node))
             return self.binop(op, a, b, node, env)
         if isinstance(node, ast.Compare) and len(node.ops) == 1:
@@ -245,6 +251,9 @@ class Interp:
                 continue
             if isinstance(st, ast.If):
                 t = self.test(st.test, env)
+                key = ("__decision__", unparse(st.test))
+                if t is None and self.correlate(st.test) and key in env:
+                    t = env[key]
                 rest = stmts[i + 1:]
                 out = []
                 branches = []
@@ -256,7 +265,10 @@ class Interp:
                     self.paths += 1
                     if self.paths > self.max_paths:
                         raise Undecided("too many paths")
-                    for e2, r2 in self._run(strip_docstring(list(br)), dict(env)):
+                    env_b = dict(env)
+                    if t is None and self.correlate(st.test):
+                        env_b[key] = br is st.body
+                    for e2, r2 in self._run(strip_docstring(list(br)), env_b):
                         if r2 is not None:
                             out.append((e2, r2))
                         else:
@@ -280,8 +292,17 @@ class Interp:
         if isinstance(target, ast.Name):
             env[target.id] = val
         elif isinstance(target, (ast.Tuple, ast.List)):
-            if isinstance(val, Tup) and len(val.items) == len(target.elts):
+            if isinstance(val, Tup) and len(val.items) == len(target.elts) and not any(isinstance(t, ast.Starred) for t in target.elts):
                 for t, v in zip(target.elts, val.items):
+                    self.assign(t, v, env, st)
+            elif isinstance(val, Tup) and sum(isinstance(t, ast.Starred) for t in target.elts) == 1 \
+                    and len(val.items) >= len(target.elts) - 1:
+                i = next(k for k, t in enumerate(target.elts) if isinstance(t, ast.Starred))
+                after = len(target.elts) - i - 1
+                for t, v in zip(target.elts[:i], val.items[:i]):
+                    self.assign(t, v, env, st)
+                self.assign(target.elts[i].value, Tup(tuple(val.items[i:len(val.items) - after])), env, st)
+                for t, v in zip(target.elts[i + 1:], val.items[len(val.items) - after:]):
                     self.assign(t, v, env, st)
             else:
                 for t in target.elts:
@@ -299,6 +320,8 @@ class Interp:
                 env[target.value.id] = base.set(idx.region, val)
             else:
                 env[target.value.id] = Opaque(f"store {unparse(st)[:40]}")
+        elif isinstance(target, ast.Starred):
+            self.assign(target.value, Opaque("starred"), env, st)
         elif isinstance(target, ast.Attribute):
             self.attr_store(target, val, env, st)
         else:
